@@ -165,8 +165,9 @@ def kA : ECKey := ⟨5, 1880580146135, 3632557104279⟩
 def kB : ECKey := ⟨5, 183945069868, 695884852719⟩
 def kC : ECKey := ⟨5, 3338659869431, 2346414713389⟩
 
-/-- ★ the verdict of CheckWeakECPrivateKey is NOT a function of the key alone.  Kernel-evaluated,
-with the literal `2**32` replaced by 16 and the REAL float values
+/-- ★ the verdict of CheckWeakECPrivateKey is NOT a function of the key alone.  Kernel-evaluated
+ON THE 40-BIT TOY CURVE `C10.ssCurve` (not a curve of `CURVE_FACTORY`; `fSS` plants it under id 5),
+with the literal `2**32` replaced by 16 (`checkWeakECPrivateKeyB … 16`) and the REAL float values
 (`int(sqrt(16·2·1)) = 5`, `int(sqrt(5)) = 2`; `int(sqrt(16·2·4)) = 11`, `int(sqrt(11)) = 3`): the key
 `30 • G` (30 ≥ 16: outside the documented family) is NOT flagged when checked alone in a fresh
 process and IS flagged, with `DISCRETE_LOG = 30`, in a batch with three unrelated keys — the giant
